@@ -1,3 +1,7 @@
 #!/bin/bash
-# regenerates lean/KmipProofs/RegistryKeys.lean from KmipModel/Registry.lean + Expect.lean (run after editing either)
-cd /verif/lean && lake build KmipModel.Expect && lake env lean --run /verif/scripts/genkeys.lean > KmipProofs/RegistryKeys.lean
+# regenerates lean/KmipProofs/RegistryKeys.lean and SpecKeys.lean from KmipModel/{Registry,SpecStructs,Expect}.lean
+# (run after editing any of them; the certification theorems inside the generated files re-check the literals)
+set -e
+cd /verif/lean && lake build KmipModel.Expect
+lake env lean --run /verif/scripts/genkeys.lean > KmipProofs/RegistryKeys.lean.new && mv KmipProofs/RegistryKeys.lean.new KmipProofs/RegistryKeys.lean
+lake env lean --run /verif/scripts/genkeys.lean spec > KmipProofs/SpecKeys.lean.new && mv KmipProofs/SpecKeys.lean.new KmipProofs/SpecKeys.lean
